@@ -57,6 +57,23 @@ Section AncestryKeys.
     intros Hg. rewrite (pred_keys g Hg), (succ_keys g Hg).
     split; exact (ab_nodup [] (g_demes g) (ak_order g Hg)).
   Qed.
+  (* lookup form: predecessors[d.name] is d's ancestor list in order; successors[a.name]
+     is the list of demes that name a as an ancestor, in deme order *)
+  Theorem pred_lookup g d :
+    AncOK g -> In d (g_demes g) -> assoc (d_name d) (predecessors g) = Some (d_anc d).
+  Proof.
+    intros Hg Hd. apply in_assoc; [exact (proj1 (views_keys_nodup g Hg))|].
+    rewrite (pred_spec g Hg). apply in_map_iff. exists d. split; [reflexivity|exact Hd].
+  Qed.
+
+  Theorem succ_lookup g a :
+    AncOK g -> In a (g_demes g) ->
+    assoc (d_name a) (successors g) =
+      Some (map d_name (filter (fun c => existsb (String.eqb (d_name a)) (d_anc c)) (g_demes g))).
+  Proof.
+    intros Hg Ha. apply in_assoc; [exact (proj2 (views_keys_nodup g Hg))|].
+    rewrite (succ_spec g Hg). apply in_map_iff. exists a. split; [reflexivity|exact Ha].
+  Qed.
 End AncestryKeys.
 
 Print Assumptions pred_keys.
@@ -64,3 +81,5 @@ Print Assumptions succ_keys.
 Print Assumptions views_entry_for_every_deme.
 Print Assumptions views_no_foreign_entry.
 Print Assumptions views_keys_nodup.
+Print Assumptions pred_lookup.
+Print Assumptions succ_lookup.
